@@ -402,15 +402,17 @@ class UpdateCollection(Message):
         # Withdraws/NLRIS (IPv4 unicast and multicast)
         msg_size = negotiated.msg_size - 19 - 2 - 2 - len(attr)  # 2 bytes for each of the two prefix() header
 
-        if msg_size < 0:
+        if msg_size < 0 or (msg_size == 0 and (has_v4 or has_mp)):
             # raise Notify(6,0,'attributes size is so large we can not even pack one NLRI')
             log.critical(lazymsg('update.pack.error reason=attributes_too_large'), 'parser')
+            # nothing can be announced with these attributes, but a withdraw needs none of them
+            alone = list(v4_withdraws) + [nlri for nlris in mp_withdraws.values() for nlri in nlris]
+            if alone:
+                yield from UpdateCollection([], alone, AttributeCollection()).messages(negotiated, True)
             return
 
-        if msg_size == 0 and (has_v4 or has_mp):
-            # raise Notify(6,0,'attributes size is so large we can not even pack one NLRI')
-            log.critical(lazymsg('update.pack.error reason=attributes_too_large'), 'parser')
-            return
+        # IPv4 withdraws which do not fit next to the attributes: sent at the end, in UPDATEs without attributes
+        orphans: list[NLRI] = []
 
         withdraws = b''
         announced = b''
@@ -449,7 +451,10 @@ class UpdateCollection(Message):
                 packed = nlri.pack_nlri(negotiated)
                 packed_size = len(packed)
                 if packed_size > msg_size:
-                    log.critical(lazymsg('update.pack.error reason=attributes_too_large'), 'parser')
+                    if attr:
+                        orphans.append(nlri)
+                    else:
+                        log.critical(lazymsg('update.pack.error reason=attributes_too_large'), 'parser')
                     continue
                 if announced_size + withdraws_size + packed_size <= msg_size:
                     withdraws += packed
@@ -477,6 +482,9 @@ class UpdateCollection(Message):
             # sent: not to be repeated in the first message of the MP families
             withdraws = b''
             announced = b''
+
+        if orphans:
+            yield from UpdateCollection([], orphans, AttributeCollection()).messages(negotiated, True)
 
         # Get all families that have MP announces or withdraws
         all_mp_families = set(mp_announces.keys()) | set(mp_withdraws.keys())
